@@ -127,6 +127,10 @@ func buildUserPacket(kind string, r *rng) *astits.Packet {
 	case "pcr":
 		return &astits.Packet{Header: astits.PacketHeader{PID: 0x1ffe, HasAdaptationField: true, ContinuityCounter: uint8(r.intn(16))},
 			AdaptationField: &astits.PacketAdaptationField{HasPCR: true, PCR: &astits.ClockReference{Base: cr33(r), Extension: int64(r.intn(300))}, StuffingLength: 176}}
+	case "richaf": // every optional part of the adaptation field and of its extension, then payload
+		a := buildAF("rich", r)
+		return &astits.Packet{Header: astits.PacketHeader{PID: 0x1ffe, HasPayload: true, HasAdaptationField: true, ContinuityCounter: uint8(r.intn(16))},
+			AdaptationField: a, Payload: r.bytes(184 - afTotalLen("rich"))}
 	case "toobig":
 		return &astits.Packet{Header: astits.PacketHeader{PID: 0x1ffe, HasPayload: true, ContinuityCounter: uint8(r.intn(16))}, Payload: r.bytes(185)}
 	case "nopltoobig": // no payload flagged, yet an oversize Payload slice: must be rejected without a partial write like any other
